@@ -319,10 +319,15 @@ func workerMain(p *Property, tier string, opt map[string]string) int {
 		totalW += max(1, jobs[i].Weight)
 	}
 	enc := json.NewEncoder(os.Stdout)
-	for _, i := range idx {
+	for k, i := range idx {
 		remain := time.Until(end)
-		share := time.Duration(float64(remain) * float64(max(1, jobs[i].Weight)) / float64(max(1, totalW)))
+		// a job may use up to three times its weight's share of what is left of the worker's budget (jobs differ a lot in size
+		// and what one leaves over goes to the next ones anyway), as long as every later job keeps at least a second
+		share := 3 * time.Duration(float64(remain)*float64(max(1, jobs[i].Weight))/float64(max(1, totalW)))
 		totalW -= max(1, jobs[i].Weight)
+		if later := time.Duration(len(idx)-1-k) * time.Second; share > remain-later {
+			share = remain - later
+		}
 		if share < time.Second {
 			share = time.Second
 		}
